@@ -50,6 +50,7 @@ inductive Prog (E α : Type) where
   | streamLen (k : Nat → Prog E α)                    -- `stream_len()?`
   | readExact (n : Nat) (eof : Option E) (k : Bytes → Prog E α)
   | skip (n : Nat) (eof : Option E) (k : Unit → Prog E α)
+  | readUpTo (n : Nat) (k : Bytes → Prog E α)         -- `take(n).read_to_end()`: fewer than n bytes only at the end
 
 namespace Prog
 def bind {E α β} : Prog E α → (α → Prog E β) → Prog E β
@@ -61,6 +62,7 @@ def bind {E α β} : Prog E α → (α → Prog E β) → Prog E β
   | .streamLen k, f => .streamLen fun p => (k p).bind f
   | .readExact n e k, f => .readExact n e fun b => (k b).bind f
   | .skip n e k, f => .skip n e fun u => (k u).bind f
+  | .readUpTo n k, f => .readUpTo n fun b => (k b).bind f
 
 instance {E} : Monad (Prog E) where
   pure := .done
@@ -74,6 +76,7 @@ structure CursorOps (σ : Type) where
   streamLen : σ → Except IoKind (Nat × σ)
   readExact : σ → Nat → Except IoKind (Bytes × σ)
   skip : σ → Nat → Except IoKind σ
+  readUpTo : σ → Nat → Except IoKind (Bytes × σ)
 
 def mapEof {E α} (eof : Option E) (k : IoKind) : Outcome E α :=
   match k, eof with
@@ -105,6 +108,10 @@ def Prog.run {E α σ} (ops : CursorOps σ) : Prog E α → σ → Outcome E α
     match ops.skip st n with
     | .ok st' => (k ()).run ops st'
     | .error e => mapEof eof e
+  | .readUpTo n k, st =>
+    match ops.readUpTo st n with
+    | .ok (b, st') => (k b).run ops st'
+    | .error e => .ioErr e
 
 /-- how `skip` past the end behaves -/
 inductive SkipKind where
@@ -134,5 +141,8 @@ def idealOps (s : Stream) (kind : SkipKind) : CursorOps Nat where
       else if pos + n < u64Lim then .ok (pos + n)
       else if n ≤ i64Max then .error .invalidInput
       else .error .invalidData
+  readUpTo pos n :=
+    let m := min n (s.len - pos)
+    .ok (s.read pos m, pos + m)
 
 end MediaSan
